@@ -53,9 +53,10 @@ var timeIDs = map[string][2]string{
 	"dmY-2512": {"3", "25/12/1970"},
 	"rfc-a":    {"1", "1970-01-02T03:04:05Z"},
 	"y0-0304":  {"4", "03/04"},
+	"y0-1230":  {"4", "12/30"},
 }
 
-var timeToks = []string{"03/04/1970", "25/12/1970", "12/25/1970", "1970-01-02T03:04:05Z", "03/04"}
+var timeToks = []string{"03/04/1970", "25/12/1970", "12/25/1970", "1970-01-02T03:04:05Z", "03/04", "12/30"}
 
 // checkParseTab verifies the model's strptime table against time.Parse: the
 // listed entries parse, every other (layout, value token) pair fails.
